@@ -61,6 +61,9 @@ pub fn check_pos(ctx: &mut Ctx, mp: &MPos, b: &Board) {
 
 /// (e) raw boards, valid or not, with a rank-consistent mark.
 fn check_raw(ctx: &mut Ctx, r: &RawBoard, tag: &str) {
+    if ctx.miri_full() {
+        return;
+    }
     let mp = from_raw(r);
     let case = format!("raw:{}", mfen::to_xfen(&mp));
     ctx.begin_case(&case);
@@ -198,6 +201,9 @@ fn exhaustive(ctx: &mut Ctx) {
 
 /// (f) for any accepted text, parse-format-parse is stable.
 pub fn check_text(ctx: &mut Ctx, text: &str) {
+    if ctx.miri_full() {
+        return;
+    }
     let case = format!("text:{}", crate::ctx::hex(text.as_bytes()));
     ctx.eval(1);
     let Some(r1) = ctx.guard("text_from_fen", &case, || RawBoard::from_fen(text)) else { return };
